@@ -15,6 +15,7 @@ second project (optionally holding some of the jobs already) under an import sch
 import hashlib
 import itertools
 import json
+import zlib
 import os
 import posixpath
 import random
@@ -1076,8 +1077,16 @@ def run_rt(case, ctx):
                 walk_line = " " + " ".join(["W%d" % len(worder)] + ["S" + hx(p) for p in worder])
             snap_all2 = tree_snapshot(S)
             imp_exc = None
+            origin = target
+            if mkind == "dir" and os.path.isdir(target):
+                # the origin directory spelled in a form that is not normalised (same directory)
+                tdir, tbase = os.path.split(target)
+                variant = zlib.crc32(json.dumps(case, sort_keys=True, default=str).encode()) % 6
+                origin = [target, target + os.sep + ".", target + os.sep + os.sep, tdir + os.sep + "." + os.sep + tbase,
+                          os.path.join(target, os.pardir, tbase), target][variant]
+                tags.append("origin-spelling=%d" % variant)
             try:
-                dst.import_from(target, schema=schema_arg)
+                dst.import_from(origin, schema=schema_arg)
             except Exception as e:
                 imp_exc = e
             info["import_exc"] = kind_of(imp_exc) if imp_exc else None
